@@ -1,5 +1,5 @@
 # C10 - losing the connection at any point leaves a consistent client that can reconnect: single inductive steps (see c10.h / h.cpp)
-TUS = ['src/client/QXmppConfiguration.cpp', 'src/base/QXmppStreamFeatures.cpp', 'src/base/QXmppBindIq.cpp', 'src/base/QXmppStreamManagement.cpp', 'src/base/Stream.cpp', 'src/base/QXmppUtils.cpp',
+TUS = ['src/client/QXmppConfiguration.cpp', 'src/base/QXmppPacket.cpp', 'src/base/QXmppStreamFeatures.cpp', 'src/base/QXmppBindIq.cpp', 'src/base/QXmppStreamManagement.cpp', 'src/base/Stream.cpp', 'src/base/QXmppUtils.cpp',
        'src/base/QXmppIq.cpp', 'src/base/QXmppStanza.cpp', 'src/base/QXmppSasl.cpp']
 MODELS = ['qt_core.c', 'qt_list.c', 'qt_dom.c', 'qt_object.c', 'c10_models.c']
 PRE = ('pre-state: ARBITRARY private state of QXmppOutgoingClient (authenticated / session / bind / stream-management / resumption / CSI / carbons flags, '
@@ -8,13 +8,13 @@ Q = ('quick', 'thorough'); T = ('thorough',)
 LISTENERS = ['client itself', 'STARTTLS step', 'legacy-auth step (idle)', 'SASL step', 'SASL2 step', 'stream-management step', 'bind step', 'legacy-auth step (auth query pending)']
 REQ = ['none', 'resume', 'enable']
 # VP_CFG bits (c10.h)
-def cfg(L=0, N=0, trynext=False, redirect=False, req=0, session=None, ev=0, idx=None, noreq=False):
+def cfg(L=0, N=0, trynext=False, redirect=False, req=0, session=None, ev=0, idx=None, noreq=False, onereq=False):
     return (L | N << 3 | (32 if trynext else 0) | (64 if redirect else 0) | req << 7 | (512 if session is True else 1024 if session is False else 0)
-            | (0 if idx is None else 2048 | idx << 12) | ev << 14 | (1 << 19 if noreq else 0))
-def fixed(L=0, N=0, trynext=False, redirect=False, req=0, session=None, ev=0, idx=None, noreq=False):
+            | (0 if idx is None else 2048 | idx << 12) | ev << 14 | (1 << 19 if noreq else 0) | (1 << 20 if onereq else 0))
+def fixed(L=0, N=0, trynext=False, redirect=False, req=0, session=None, ev=0, idx=None, noreq=False, onereq=False):
     return 'listener = %s, %d known server address(es)%s, %s%s%s%s' % (
         LISTENERS[L], N, ' (index of the next one %s)' % ('arbitrary' if idx is None else idx), 'next address selected (TryNext), ' if trynext else '', 'see-other-host redirect pending, ' if redirect else '',
-        'pending stream-management request: %s, ' % REQ[req], 'session ' + {None: 'arbitrary', True: 'established', False: 'not established'}[session] + (', no outstanding requests' if noreq else ''))
+        'pending stream-management request: %s, ' % REQ[req], 'session ' + {None: 'arbitrary', True: 'established', False: 'not established'}[session] + (', no outstanding requests' if noreq else '') + (', exactly one outstanding request' if onereq else ''))
 def I(name, entry, what, tiers=Q, **c):
     kw = {k: c.pop(k) for k in list(c) if k in ('known_finding', 'timeout_s', 'mem_gb')}
     d = dict(name=name, entry='h_' + entry, unwind=5, timeout_s=300, mem_gb=3, tiers=tiers,
@@ -48,6 +48,9 @@ INST = (
      I('disc_redirect_n2_sm', 'disconnected', DISC, redirect=True, N=2, L=5, req=1, tiers=T),
      # (fixed finding: a redirect that arrives while a session is established used to keep the session flag set)
      I('disc_redirect_in_session', 'disconnected', DISC, redirect=True, session=True, N=1, L=0)]
+    # re-entrancy: the completion handler of the cancelled request issues a new request through the real send path while the session closes
+    + [I('disc_close_reenter', 'disconnected_reenter', DISC + ' with stream management active but the session NOT resumable; the handler of the cancelled request sends a new IQ (fresh id 2 units, addressee 2 units) via OutgoingIqManager::sendIq / StreamAckManager::send on the unconnected socket', onereq=True, session=True),
+       I('disc_redirect_reenter', 'disconnected_reenter', DISC + ' (see-other-host redirect ends an established session) with stream management active but the session NOT resumable; the handler of the cancelled request sends a new IQ via the real send path', onereq=True, session=True, redirect=True)]
     # mechanism 1: reset of per-stream state whenever a new stream starts
     + [I('start_client', 'start', 'socket started (handleStart)', L=0, N=1),
        I('start_nonsasl_pending', 'start', 'socket started (handleStart)', L=7),
@@ -94,6 +97,7 @@ SPEC = dict(
         'single inductive steps: ONE event applied to an ARBITRARY private state of QXmppOutgoingClient / QXmppOutgoingClientPrivate: isAuthenticated, sessionStarted, bindModeAvailable, authenticationMethod, stream id / from / version (<= 2 arbitrary UTF-16 units each), StreamAckManager enabled flag and 32-bit counters, C2sStreamManager {smAvailable, canResume, enabled, streamResumed, smId <= 2 units, pending request none / resume / enable}, carbons and CSI flags, FAST token flag, user / domain / resource <= 2 units, socket connected or not; per instance fixed (case split): which negotiation step listens (all 7 alternatives of the listener variant + a legacy-auth step with a pending query), 0..3 known server addresses (host <= 2 units, any port, TCP or TLS) with the index of the next one, next-address selection (TryNext) and pending see-other-host redirect (host <= 2 units, any port)',
         'outstanding IQ requests: 0..2 pending requests (ids of 1 resp. 2 units, addressees 1..2 units, promises unfinished, nobody attached yet); request table model capacity 3',
         'events: socket disconnected; socket started; openSession; disconnectFromHost; socketError(any QAbstractSocket::SocketError, socket connected or not); handleStreamError(see-other-host | any of the 25 defined conditions, text <= 2 units); two-event compositions: disconnectFromHost + socket disconnected, see-other-host + socket disconnected; callers of openSession: handleStreamFeatures after authentication (bind / stream management offered or not, previous session resumable or not, session / CSI modes arbitrary), the answer to a REAL startSmEnable / startSmResume step (<failed/>, <enabled id<=2 resume?/>, <resumed h=any u32 previd<=2/>, a one-letter element of the sm namespace; binding offered or not) and the answer to a REAL startResourceBinding step (result with a <jid> of 2 arbitrary units that is / is not a full JID, error, result without <bind/>; stream management offered or not)',
+        're-entrancy (disc_close_reenter, disc_redirect_reenter): stream management active, session not resumable, exactly one outstanding request whose completion handler issues one new request (fresh id and addressee of 2 units, stanza bytes) through the REAL OutgoingIqManager::sendIq -> StreamAckManager::send -> QXmppPacket path while closeSession is running; afterwards NO request may be outstanding',
         'every step re-establishes what the next one assumes (after socket disconnected: not authenticated, no session; after socket started: per-stream state empty; TryNext only while an address is left and no session exists), so the per-event claims hold along every sequence of these events - i.e. for every cut point of a connection - as long as the stated bounds hold',
         'quick tier = a subset of the case combinations (every mechanism and every branch of _q_socketDisconnected / socketError / handleStreamError at least once); thorough tier = all listed combinations, plus the address index left symbolic (n3_any)',
         'socket write log capacity 4, connect log capacity 2, signal slots 8 (asserted as model limits)',
@@ -102,9 +106,9 @@ SPEC = dict(
         'QXmppOutgoingClient and QXmppOutgoingClientPrivate live in typed, unconstructed storage and are built field by field (the real constructor creates sockets, timers and connections); QXmppConfiguration is the REAL class set through its setters; PingManager = two timer addresses (QTimer::stop / start are ghost counters)',
         'representation invariant of the pre-state: nextServerAddressIndex <= serverAddresses.size(); nextAddressState == TryNext only while index < size and no session is established (proved to be preserved by socketError in socket_error_*; between a socket error during start-up and the following disconnect no session is opened); openSession is entered with sessionStarted == false (what the disconnected steps establish for every new connection; the callers covered here are checked to call it at most once)',
         'signals (connected, disconnected, errorOccurred) run through the REAL moc bodies of the build (/repo/_build/.../moc_QXmppOutgoingClient.cpp) into QMetaObject::activate of the shared QObject model; emissions are counted per signal with a snapshot of the SessionBegin / SessionEnd argument; nobody is connected to them (QXmppClient and the PingManager lambdas that stop the keep-alive timers on `disconnected` are outside)',
-        'XmppSocket is cut at sendData (ghost log of classification tags: what is serialised is classified by the TYPE of the serialiser - serializeXml<StreamOpen|QXmppBindIq|SmEnable|SmResume|CsiActive|...> overridden), connectToHost(ServerAddress) (ghost log of type / host / port), disconnectFromHost (counter) and isConnected (arbitrary flag); the TLS configuration calls of QXmppOutgoingClientPrivate::connectToHost (QSslConfiguration, setProxy, setPeerVerifyName) are no-ops; QSslSocket::isEncrypted / supportsSsl answer true in the features steps (TLS ordering is C04)',
+        'XmppSocket is cut at sendData (ghost log of classification tags: what is serialised is classified by the TYPE of the serialiser - serializeXml<StreamOpen|QXmppBindIq|SmEnable|SmResume|CsiActive|...> overridden), connectToHost(ServerAddress) (ghost log of type / host / port), disconnectFromHost (counter) and isConnected (arbitrary flag; false when the socket reports `disconnected`; a write on an unconnected socket fails, otherwise its result is arbitrary - the contract of the real XmppSocket::sendData); the TLS configuration calls of QXmppOutgoingClientPrivate::connectToHost (QSslConfiguration, setProxy, setPeerVerifyName) are no-ops; QSslSocket::isEncrypted / supportsSsl answer true in the features steps (TLS ordering is C04)',
         'QXmppTask/QXmppPromise are the assume-guarantee shadow (contract established by C13): "completed exactly once" = the shadow asserts no promise is finished twice, and the harness reads the stored result (QXmppError carrying SendError::Disconnected)',
-        'std::unordered_map<QString,IqState> is the array-backed class-level model of harness/C07 (vp_iqmap.h); QMap<unsigned,QXmppPacket> (unacknowledged stanzas) is modelled as always empty - stanza accounting across sessions is C09',
+        'std::unordered_map<QString,IqState> is the array-backed class-level model of harness/C07 (vp_iqmap.h); QMap<unsigned,QXmppPacket> (unacknowledged stanzas) is the array-backed class-level model of harness/C09 (capacity 4, elements copied / destroyed by the REAL QXmppPacket copy constructor / destructor), empty in every pre-state - stanza accounting across sessions is C09',
         'QXmpp::Private::enumFromString<QXmppIq::Type,4> (inline template: std::find over the 4-entry type table) is replaced by an equivalent table look-up in c10_models.c: the translated original returns std::optional through an integer with undefined padding, after which the IQ type is not a constant for symbolic execution; QRegularExpression (JID pattern of the bind answer) is over-approximated: the verdict is fixed per instance (both verdicts run), the captures of a match are arbitrary non-empty strings <= 2 units',
         'logging and log-text formatting (QString::arg, StreamErrorElement::streamErrorToString feeding the error text) are identity / empty models; QXmppUtils::generateStanzaUuid returns an id of 2 arbitrary units; QNetworkProxy / QDateTime members are opaque words',
     ],
